@@ -85,6 +85,22 @@ theorem iter_reach {multi : Bool} {s : St} (hr : Reach multi s) : s.iter = abs s
 theorem iter_run (multi : Bool) (ops : List Op) : (run multi ops).iter = abs (run multi ops) :=
   iter_reach (reach_run multi ops)
 
+/-- Reading the `p`-th item through the prev/next list (what the code does with `position.item`,
+    `->prev`, `->next`) gives the entry the model reads at in-order position `p` — the model's
+    position-based reads in `insertAt` / `removeAt` are reads through the list. -/
+theorem list_read_eq_inorder {multi : Bool} {s : St} (hr : Reach multi s) (p : Nat) :
+    (s.order[p]?).bind (fun id => s.t.inorder.find? (fun e => e.1 == id)) = s.t.inorder[p]? := by
+  obtain ⟨_, hO, _⟩ := invs_reach hr
+  have hnd : (s.t.inorder.map (fun e => e.1)).Nodup := (List.nodup_append.mp hO.nodup).1
+  rw [hO.order]
+  unfold ids
+  rw [List.getElem?_map]
+  cases h : s.t.inorder[p]? with
+  | none => rfl
+  | some e =>
+    simp only [Option.map_some, Option.bind_some]
+    exact find_self _ hnd e (List.mem_of_getElem? h)
+
 /-- `size()` is the number of entries iteration yields -/
 theorem size_reach {multi : Bool} {s : St} (hr : Reach multi s) : s.size = (abs s).length :=
   (abs_length s (invs_reach hr).1).symm
